@@ -217,6 +217,16 @@ def mk_queue(case):
                 kws['duration'] = [r['duration'] for r in rest]
             if any(r['has_meta'] for r in rest):
                 kws['metadata'] = [r['metadata'] for r in rest]
+            if fill == 'extend_np':
+                # the parallel sequences as tuple / ndarray instead of lists
+                srcs = tuple(srcs)
+                tr = np.array(tr)
+                if all(d is not None and not np.iterable(d) for d in dl):
+                    dl = np.array(dl, dtype=float)
+                else:
+                    dl = tuple(dl)
+                for k in list(kws):
+                    kws[k] = tuple(kws[k])
             if uniform and dl[0] is None:
                 keys += q.extend(srcs, tr[0], **kws)
             elif uniform:
@@ -333,8 +343,9 @@ def run_impl(case):
             # nothing but RandomSignalQueue may depend on the global NumPy random state
             np.random.seed(1000 + n_op)
             np.random.uniform(size=3)
-        if originals:
+        if originals and case['pol'] != 'random':
             # the queue(s) this one was cloned from keep running: nothing of that may reach the clone
+            # (RandomSignalQueue draws from the global NumPy generator, which original and clone share by design)
             live[0] = False
             for qo in originals:
                 qo.pop_buffer(3)
@@ -363,6 +374,8 @@ def run_impl(case):
             t = None if o[1] is None else T0 + o[1] / fs
             if t is not None and flag == 'np':
                 t = np.float64(t)
+            if t is not None and flag == 'int0' and t == 0:
+                t = 0                              # falsy, but a time
             try:
                 if flag == 'kw':
                     q.pause(t=t)
@@ -378,6 +391,8 @@ def run_impl(case):
             t = None if o[1] is None else T0 + o[1] / fs
             if t is not None and flag == 'np':
                 t = np.float64(t)
+            if t is not None and flag == 'int0' and t == 0:
+                t = 0                              # falsy, but a time
             if flag == 'kw':
                 q.resume(t=t)
             elif t is None and flag == 'noarg':
